@@ -2,7 +2,9 @@ package nns
 
 import (
 	"math/rand"
+	"sort"
 	"strconv"
+	"strings"
 )
 
 func s(xs ...string) []string { return append([]string{}, xs...) }
@@ -109,6 +111,17 @@ func traps() []*Scenario {
 			reg(s("o1", "o2"), "d.c.b.a.t", "o2", 4) /* accepted: o1 owns c.b.a.t now */,
 			setAdmin(s("o1", "o3"), "c.b.a.t", "o3"), tick(5), reg(s("o3"), "d.c.b.a.t", "o3", 4) /* admin of the parent: accepted */,
 			reg(s("o3", "o2"), "c.a.t", "o2", 4) /* o3 is admin of b.a.t, not of a.t: refused */, reg(s("o1", "o2"), "c.a.t", "o2", 4)}},
+		// only the OWNER (with the new admin) appoints or clears an admin - the current admin cannot
+		// (seeded change C11-setadmin-by-admin)
+		{CN: 7, Src: "trap:adminappoints", Steps: []Step{
+			reg(o1, "a.t", "o1", 12), setAdmin(s("o1", "o2"), "a.t", "o2"), setAdmin(s("o2", "o3"), "a.t", "o3") /* admin + new admin: refused */,
+			setAdmin(s("o2"), "a.t", "nil") /* admin clears: refused */, setAdmin(s("o2"), "a.t", "o2") /* refused */,
+			setAdmin(s("o3"), "a.t", "o3") /* new admin alone: refused */, setAdmin(s("o1"), "a.t", "o3") /* owner alone: refused */,
+			via(setAdmin(s("o1"), "a.t", "kc")) /* a contract as admin */, via(setAdmin(s("o3"), "a.t", "o3")) /* contract admin + new: refused */,
+			via(setAdmin(s(), "a.t", "nil")) /* refused */, reg(s("o1", "o2"), "b.a.t", "o2", 8), setAdmin(s("o2", "o3"), "b.a.t", "o3"),
+			setAdmin(s("o1", "o3"), "b.a.t", "o1") /* parent owner is not the owner: refused */, setAdmin(s("o3", "o1"), "b.a.t", "o1") /* refused */,
+			xfer(o2, "b.a.t", "o1"), setAdmin(s("o2", "o3"), "b.a.t", "o3") /* former owner: refused */,
+			setAdmin(s("o3"), "b.a.t", "nil") /* former admin: refused */, setAdmin(s("o1"), "a.t", "nil"), setAdmin(s("o1", "o3"), "b.a.t", "o3")}},
 		// former owner / former admin / parent owner after transfers
 		{CN: 4, Src: "trap:former", Steps: []Step{
 			reg(o1, "a.t", "o1", 8), reg(o1, "b.a.t", "o2", 8), reg(s("o1", "o2"), "b.a.t", "o2", 8), setAdmin(o2, "b.a.t", "o3"),
@@ -131,188 +144,419 @@ func randScenarios(seed int64, n int) []*Scenario {
 	return out
 }
 
+// ---- a small model of ownership, only to guide the generator (never decisive: the monitor does the
+// exact bookkeeping on what the contract really did) ----
+type nst struct {
+	owner, admin   string
+	fOwner, fAdmin string // former owner / former admin
+	exp            int64
+}
+
+type gmodel struct {
+	now  int64
+	reg  map[string]*nst
+	recs map[string][]string // token|name|type -> data
+}
+
+func parOf(n string) string {
+	for i := 0; i < len(n); i++ {
+		if n[i] == '.' {
+			return n[i+1:]
+		}
+	}
+	return ""
+}
+
+func levelOf(n string) int { return strings.Count(n, ".") + 1 }
+
+func (m *gmodel) alive(n string) bool { x := m.reg[n]; return x != nil && m.now < x.exp }
+func (m *gmodel) ancOK(n string) bool {
+	for p := parOf(n); p != ""; p = parOf(p) {
+		if !m.alive(p) {
+			return false
+		}
+	}
+	return true
+}
+func (m *gmodel) token(n string) string {
+	for x := n; parOf(x) != ""; x = parOf(x) {
+		if m.alive(x) {
+			return x
+		}
+	}
+	return n
+}
+func adminOK(x *nst, W map[string]bool) bool {
+	if x.owner == "nil" {
+		return W["CMT"]
+	}
+	return W[x.owner] || (x.admin != "nil" && W[x.admin])
+}
+func (m *gmodel) conflict(n string) bool {
+	pre := parOf(n) + "|"
+	for k, l := range m.recs {
+		if len(l) > 0 && strings.HasPrefix(k, pre) && strings.HasSuffix(strings.Split(k, "|")[1], "."+n) {
+			return true
+		}
+	}
+	return false
+}
+
+// apply predicts the effect of a step (the Spec's rules) and advances the clock.
+func (m *gmodel) apply(st Step) {
+	if st.Act == "tick" {
+		m.now += st.X
+		return
+	}
+	defer func() { m.now++ }()
+	W := map[string]bool{}
+	for _, x := range st.S {
+		W[x] = true
+		if x == "ALPHA" { // coincides with the committee on some chains; good enough for guidance
+			continue
+		}
+	}
+	if st.Via {
+		W["kc"] = true
+	}
+	n := st.N
+	x := m.reg[n]
+	switch st.Act {
+	case "registerTLD":
+		if W["CMT"] && levelOf(n) == 1 && !m.alive(n) {
+			m.reg[n] = &nst{"nil", "nil", "nil", "nil", m.now + st.X}
+		}
+	case "register":
+		if levelOf(n) < 2 || !m.ancOK(n) || (levelOf(n) > 2 && !adminOK(m.reg[parOf(n)], W)) || m.conflict(n) || !W[st.O] || m.alive(n) {
+			return
+		}
+		y := &nst{st.O, "nil", "nil", "nil", m.now + st.X}
+		if x != nil {
+			y.fOwner, y.fAdmin = x.owner, x.admin
+			if x.admin == "nil" {
+				y.fAdmin = x.fAdmin
+			}
+		}
+		m.reg[n] = y
+	case "transfer":
+		if x != nil && m.alive(n) && W[x.owner] && x.owner != st.O {
+			x.fOwner = x.owner
+			if x.admin != "nil" {
+				x.fAdmin = x.admin
+			}
+			x.owner, x.admin = st.O, "nil"
+		}
+	case "renew":
+		if x != nil && st.X >= 1 && st.X <= 10 && m.alive(n) && m.ancOK(n) && adminOK(x, W) &&
+			(levelOf(n) == 1 || x.exp+st.X*year <= m.now+10*year) {
+			x.exp += st.X * year
+		}
+	case "setAdmin":
+		if x != nil && levelOf(n) > 1 && (st.O == "nil" || W[st.O]) && m.alive(n) && m.ancOK(n) && W[x.owner] {
+			if x.admin != "nil" && x.admin != st.O {
+				x.fAdmin = x.admin
+			}
+			x.admin = st.O
+		}
+	case "addRecord", "setRecord", "deleteRecords":
+		tok := m.token(n)
+		tx := m.reg[tok]
+		if tx == nil || levelOf(tok) < 2 || !m.alive(tok) || !m.ancOK(tok) || !adminOK(tx, W) || st.Ty == "SOA" {
+			return
+		}
+		k := tok + "|" + n + "|" + st.Ty
+		l := m.recs[k]
+		okTy := st.Ty == "A" || st.Ty == "CNAME" || st.Ty == "TXT" || st.Ty == "AAAA"
+		switch st.Act {
+		case "addRecord":
+			dup := false
+			for _, d := range l {
+				dup = dup || d == st.D
+			}
+			if okTy && !dup && len(l) < 16 && !(st.Ty == "CNAME" && len(l) > 0) {
+				m.recs[k] = append(l, st.D)
+			}
+		case "setRecord":
+			if okTy && int(st.X) < len(l) {
+				l[st.X] = st.D
+			}
+		default:
+			delete(m.recs, k)
+		}
+	}
+}
+
+// roles returns the accounts that stand in some relation of the statement to name n and the argument
+// account o: owner, admin, former owner, former admin, owner/admin of the directly enclosing name,
+// owner/admin of the 2nd-level ancestor, of the record token, of a child, the new owner/admin, a stranger,
+// the committee (and its look-alikes).
+func (m *gmodel) roles(n, o string) map[string]string {
+	R := map[string]string{"stranger": "X", "committee": "CMT", "member": "M1", "alphabet": "ALPHA", "new": o}
+	put := func(role string, x *nst) {
+		if x != nil {
+			R[role+"Owner"], R[role+"Admin"] = x.owner, x.admin
+			if x.owner == "nil" {
+				R[role+"Owner"] = "CMT"
+			}
+		}
+	}
+	if x := m.reg[n]; x != nil {
+		put("", x)
+		R["formerOwner"], R["formerAdmin"] = x.fOwner, x.fAdmin
+	}
+	put("parent", m.reg[parOf(n)])
+	l2 := n
+	for levelOf(l2) > 2 {
+		l2 = parOf(l2)
+	}
+	if l2 != n && l2 != parOf(n) {
+		put("second", m.reg[l2])
+	}
+	if p := parOf(n); p != "" && parOf(p) != "" && parOf(p) != l2 {
+		put("grand", m.reg[parOf(p)])
+	}
+	if t := m.token(n); t != n {
+		put("token", m.reg[t])
+	}
+	for c, x := range m.reg {
+		if parOf(c) == n {
+			put("child", x)
+		}
+	}
+	for k, v := range R {
+		if v == "" || v == "nil" {
+			delete(R, k)
+		}
+	}
+	return R
+}
+
+// authSets returns the minimal signer sets that authorise the step according to the statement.
+func (m *gmodel) authSets(st Step) [][]string {
+	oa := func(x *nst, more ...string) [][]string {
+		if x == nil {
+			return nil
+		}
+		if x.owner == "nil" {
+			return [][]string{append([]string{"CMT"}, more...)}
+		}
+		out := [][]string{append([]string{x.owner}, more...)}
+		if x.admin != "nil" {
+			out = append(out, append([]string{x.admin}, more...))
+		}
+		return out
+	}
+	switch st.Act {
+	case "registerTLD":
+		return [][]string{{"CMT"}}
+	case "register":
+		if levelOf(st.N) == 2 {
+			return [][]string{{st.O}}
+		}
+		return oa(m.reg[parOf(st.N)], st.O)
+	case "transfer":
+		if x := m.reg[st.N]; x != nil {
+			return [][]string{{x.owner}}
+		}
+	case "setAdmin":
+		if x := m.reg[st.N]; x != nil {
+			if st.O == "nil" {
+				return [][]string{{x.owner}}
+			}
+			return [][]string{{x.owner, st.O}}
+		}
+	case "renew", "updateSOA":
+		return oa(m.reg[st.N])
+	case "addRecord", "setRecord", "deleteRecords":
+		return oa(m.reg[m.token(st.N)])
+	}
+	return nil
+}
+
+// sign draws the signer set of a step from the role set of the statement: exactly authorised, almost
+// authorised (one required witness missing or replaced by a relative that must not suffice), or one or
+// two arbitrary roles.
+func (m *gmodel) sign(r *rand.Rand, st Step) Step {
+	R := m.roles(st.N, st.O)
+	var rl []string
+	for k := range R {
+		rl = append(rl, k)
+	}
+	sort.Strings(rl)
+	pickRole := func() string { return R[rl[r.Intn(len(rl))]] }
+	auth := m.authSets(st)
+	var S []string
+	switch k := r.Intn(100); {
+	case k < 36 && len(auth) > 0:
+		S = append(S, auth[r.Intn(len(auth))]...)
+	case k < 72 && len(auth) > 0:
+		S = append(S, auth[r.Intn(len(auth))]...)
+		j := r.Intn(len(S))
+		if r.Intn(3) == 0 { // one required witness missing
+			S = append(S[:j], S[j+1:]...)
+		} else { // the wrong relative instead of a required witness
+			repl := S[j]
+			for try := 0; try < 8 && repl == S[j]; try++ {
+				repl = pickRole()
+			}
+			S[j] = repl
+		}
+		if r.Intn(4) == 0 {
+			S = append(S, pickRole())
+		}
+	case k < 86:
+		S = []string{pickRole()}
+	case k < 97:
+		S = []string{pickRole(), pickRole()}
+	}
+	seen := map[string]bool{}
+	st.S = []string{}
+	st.Via = false
+	for _, a := range S {
+		switch {
+		case a == "kc":
+			st.Via = true
+		case a == "" || a == "nil" || seen[a]:
+		default:
+			seen[a] = true
+			st.S = append(st.S, a)
+		}
+	}
+	return st
+}
+
+// randScenario: in two scenarios out of three the walk starts from a tower a.t / b.a.t / c.b.a.t /
+// d.c.b.a.t (or a shorter one) in which every level has a different owner and a different admin; then
+// every step picks a method and a name and draws its signers with sign.
 func randScenario(r *rand.Rand) *Scenario {
 	cns := []int{1, 3, 4, 7}
 	sc := &Scenario{CN: cns[r.Intn(len(cns))], Src: "rand"}
-	type st struct {
-		owner, admin string
-		exp          int64
+	m := &gmodel{now: 1, reg: map[string]*nst{"t": {"nil", "nil", "nil", "nil", 10 * year}}, recs: map[string][]string{}}
+	emit := func(st Step) {
+		sc.Steps = append(sc.Steps, st)
+		m.apply(st)
 	}
-	reg0 := map[string]*st{"t": {"nil", "nil", 10 * year}}
-	now := int64(0)
-	par := func(n string) string {
-		for i := 0; i < len(n); i++ {
-			if n[i] == '.' {
-				return n[i+1:]
-			}
-		}
-		return ""
-	}
-	alive := func(n string) bool { x := reg0[n]; return x != nil && now < x.exp }
-	var token func(n string) string
-	token = func(n string) string {
-		for m := n; par(m) != ""; m = par(m) {
-			if alive(m) {
-				return m
-			}
-		}
-		return n
-	}
-	users := []string{"o1", "o2", "o3"}
 	pick := func(xs []string) string { return xs[r.Intn(len(xs))] }
+	sigOf := func(accts ...string) ([]string, bool) {
+		S, via := []string{}, false
+		seen := map[string]bool{}
+		for _, a := range accts {
+			if a == "kc" {
+				via = true
+			} else if a != "nil" && !seen[a] {
+				seen[a] = true
+				S = append(S, a)
+			}
+		}
+		return S, via
+	}
+	if r.Intn(3) > 0 {
+		accts := []string{"o1", "o2", "o3", pick([]string{"kc", "CMT"})}
+		r.Shuffle(len(accts), func(i, j int) { accts[i], accts[j] = accts[j], accts[i] })
+		tower := []string{"a.t", "b.a.t", "c.b.a.t", "d.c.b.a.t"}[:2+r.Intn(3)]
+		for i, n := range tower {
+			par := "nil"
+			if i > 0 {
+				par = accts[i-1]
+			}
+			st := reg(nil, n, accts[i], int64(8+r.Intn(5)))
+			st.S, st.Via = sigOf(par, accts[i])
+			emit(st)
+		}
+		rot := 1 + r.Intn(len(accts)-1) // admin of level i = owner of another level
+		for i, n := range tower {
+			if r.Intn(5) == 0 {
+				continue
+			}
+			a := accts[(i+rot)%len(accts)]
+			if a == "CMT" && r.Intn(2) == 0 {
+				a = "o" + string(rune('1'+r.Intn(3)))
+			}
+			if a == accts[i] {
+				continue
+			}
+			st := setAdmin(nil, n, a)
+			st.S, st.Via = sigOf(accts[i], a)
+			emit(st)
+		}
+	}
 	data := map[string][]string{"A": {"1.1.1.1", "2.2.2.2", "3.3.3.3", "8.8.4.4"}, "TXT": {"x", "y", "z", "some text"},
 		"AAAA": {"2001:470::1", "2a00::2"}, "CNAME": ntNames}
 	types := []string{"A", "A", "TXT", "TXT", "CNAME", "CNAME", "AAAA", "SOA", "BAD"}
-	// signers for an action on behalf of the holder of name n (plus `extra`)
-	sig := func(n string, extra ...string) ([]string, bool) {
-		k := r.Intn(10)
-		x := reg0[n]
-		S := append([]string{}, extra...)
-		viaKC := false
-		switch {
-		case k < 6 && x != nil:
-			if x.owner == "kc" {
-				viaKC = true
-			} else if x.owner == "nil" {
-				S = append(S, "CMT")
-			} else {
-				S = append(S, x.owner)
-			}
-		case k == 6 && x != nil && x.admin != "nil":
-			if x.admin == "kc" {
-				viaKC = true
-			} else {
-				S = append(S, x.admin)
-			}
-		case k == 7:
-			S = append(S, pick([]string{"X", "M1", "ALPHA", "CMT"}))
-		case k == 8:
-			S = append(S, pick(users))
-		}
-		for _, e := range extra {
-			if e == "kc" {
-				viaKC = true
+	accounts := []string{"o1", "o1", "o2", "o2", "o3", "o3", "kc", "CMT"}
+	// names that are registered or could be registered now, with a bias to the deep ones
+	name := func() string {
+		var c []string
+		for _, n := range ntNames {
+			if m.reg[n] != nil || m.alive(parOf(n)) {
+				c = append(c, n)
+				if levelOf(n) > 2 {
+					c = append(c, n)
+				}
 			}
 		}
-		m := map[string]bool{}
-		var o []string
-		for _, x := range S {
-			if x != "kc" && x != "nil" && !m[x] {
-				m[x] = true
-				o = append(o, x)
-			}
+		if len(c) == 0 || r.Intn(6) == 0 {
+			return pick(ntNames)
 		}
-		if o == nil {
-			o = []string{}
-		}
-		return o, viaKC
+		return pick(c)
 	}
-	nsteps := 12 + r.Intn(28)
-	now++ // the deployment block is instant 0
-	for i := 0; i < nsteps; i++ {
-		if i > 0 {
-			now++ // every step is one block
+	registered := func() string {
+		var c []string
+		for _, n := range ntNames {
+			if m.alive(n) {
+				c = append(c, n)
+			}
 		}
-		n := pick(ntNames)
-		switch k := r.Intn(30); {
+		if len(c) == 0 || r.Intn(8) == 0 {
+			return pick(ntNames)
+		}
+		return pick(c)
+	}
+	nsteps := 14 + r.Intn(26)
+	for i := 0; i < nsteps; i++ {
+		switch k := r.Intn(32); {
+		case k < 2:
+			emit(tick(int64(1 + r.Intn(9))))
 		case k < 3:
-			d := int64(1 + r.Intn(9))
-			now += d - 1
-			sc.Steps = append(sc.Steps, tick(d))
-		case k < 4:
-			S := []string{"CMT"}
-			if r.Intn(4) == 0 {
-				S = []string{pick([]string{"o1", "ALPHA", "M1"})}
-			}
-			x := int64(1 + r.Intn(12))
-			tld := pick([]string{"u", "u", "t"})
-			sc.Steps = append(sc.Steps, regTLD(S, tld, x))
-			if S[0] == "CMT" && !alive(tld) {
-				reg0[tld] = &st{"nil", "nil", now + x*B}
-			}
-		case k < 11:
-			o := pick([]string{"o1", "o1", "o2", "o2", "o3", "kc", "CMT"})
-			x := int64(1 + r.Intn(6))
-			p := par(n)
-			var S []string
-			v := false
-			if par(p) != "" {
-				S, v = sig(p, o)
-			} else {
-				S, v = sig("", o)
-			}
-			stp := reg(S, n, o, x)
-			stp.Via = v
-			sc.Steps = append(sc.Steps, stp)
-			// rough prediction (the monitor does the exact bookkeeping)
-			ok := !alive(n)
-			for m := p; m != ""; m = par(m) {
-				ok = ok && alive(m)
-			}
-			if ok {
-				reg0[n] = &st{o, "nil", now + x*B}
-			}
+			emit(m.sign(r, regTLD(nil, pick([]string{"u", "u", "t"}), int64(1+r.Intn(12)))))
+		case k < 10:
+			emit(m.sign(r, reg(nil, name(), pick(accounts), int64(1+r.Intn(8)))))
 		case k < 14:
-			to := pick(owners)
-			S, v := sig(n)
-			stp := xfer(S, n, to)
-			stp.Via = v
-			sc.Steps = append(sc.Steps, stp)
-			if x := reg0[n]; x != nil && alive(n) && len(S) > 0 && S[0] == x.owner {
-				x.owner, x.admin = to, "nil"
-			}
+			emit(m.sign(r, xfer(nil, registered(), pick(accounts))))
 		case k < 16:
 			y := int64(1 + r.Intn(10))
 			if r.Intn(8) == 0 {
 				y = int64(r.Intn(13))
 			}
-			m := n
+			n := registered()
 			if r.Intn(6) == 0 {
-				m = pick([]string{"t", "u"})
+				n = pick([]string{"t", "u"})
 			}
-			S, v := sig(m)
-			stp := renew(S, m, y)
-			stp.Via = v
-			sc.Steps = append(sc.Steps, stp)
-		case k < 18:
-			a := pick([]string{"o1", "o2", "o3", "kc", "nil"})
-			S, v := sig(n, a)
-			stp := setAdmin(S, n, a)
-			stp.Via = v
-			sc.Steps = append(sc.Steps, stp)
-			if x := reg0[n]; x != nil && alive(n) && len(S) > 0 {
-				x.admin = a
+			emit(m.sign(r, renew(nil, n, y)))
+		case k < 21:
+			emit(m.sign(r, setAdmin(nil, registered(), pick([]string{"o1", "o2", "o3", "kc", "nil", "nil"}))))
+		case k < 23:
+			n := registered()
+			if r.Intn(8) == 0 {
+				n = pick([]string{"t", "u"})
 			}
-		case k < 19:
-			S, v := sig(n)
-			stp := updSOA(S, n, pick([]string{"m1", "m2"}), int64(1+r.Intn(5)))
-			stp.Via = v
-			sc.Steps = append(sc.Steps, stp)
-		case k < 25:
+			emit(m.sign(r, updSOA(nil, n, pick([]string{"m1", "m2"}), int64(1+r.Intn(5)))))
+		case k < 27:
 			ty := pick(types)
 			d := "x"
 			if l, ok := data[ty]; ok {
 				d = pick(l)
 			}
-			S, v := sig(token(n))
-			stp := add(S, n, ty, d)
-			stp.Via = v
-			sc.Steps = append(sc.Steps, stp)
-		case k < 28:
+			emit(m.sign(r, add(nil, name(), ty, d)))
+		case k < 30:
 			ty := pick(types)
 			d := "x"
 			if l, ok := data[ty]; ok {
 				d = pick(l)
 			}
-			S, v := sig(token(n))
-			stp := set(S, n, ty, int64(r.Intn(3)), d)
-			stp.Via = v
-			sc.Steps = append(sc.Steps, stp)
+			emit(m.sign(r, set(nil, name(), ty, int64(r.Intn(3)), d)))
 		default:
-			S, v := sig(token(n))
-			stp := del(S, n, pick(types))
-			stp.Via = v
-			sc.Steps = append(sc.Steps, stp)
+			emit(m.sign(r, del(nil, name(), pick(types))))
 		}
 	}
 	return sc
